@@ -1245,11 +1245,15 @@ class Cycles:
 
         if subset and (conditions is not None):
             raise ValueError("Please specify either 'subset=True' or a set of conditions")
-        elif subset:
-            conditions = self.mask_conditions
 
-        if conditions is not None:
+        inds = None
+        if subset and self.subset_vect is not None:
+            # The cycles picked by pick_cycle_subset - not a fresh evaluation of its conditions
+            inds = self.subset_vect == -1
+        elif conditions is not None:
             inds = self.get_matching_cycles(conditions) == False  # noqa: E712
+
+        if inds is not None:
             d = d.drop(np.where(inds)[0])
             d = d.reset_index()
 
